@@ -363,7 +363,9 @@ def gen_consts(repo):
             f"Definition fmt_mod : Z := {mod}%Z.\n"
             f"Definition fmt_w2 : nat := {w2}%nat.\n"
             f"Definition ctr_init : Z := {ctr_init}%Z.\n"
-            "(* every derived connection calls do_request of its root's _HttpConnImpl (checked on the AST) *)\n"
+            "(* _HttpConnBase.__init__: `self.conn_impl = parent_conn.conn_impl`, parent_conn being the wrapped connection *)\n"
+            "Definition wrap_rule : impl_rule := RShareParent.\n"
+            "(* get/post/put/delete/patch call self.conn_impl.do_request and no class rebinds conn_impl (checked on the AST) *)\n"
             "Definition shares_impl : bool := true.\n")
     return {"C16_Consts": text}
 
@@ -497,6 +499,23 @@ def gen_cases(rng, tier):
     for c0 in [0, 9, 10, 99, 9998, 9999, 10000, 19999, 123456789, 999999999998, 999999999999, 10 ** 12, 10 ** 15 + 9999]:
         cases.append(_mk([{"conn": 0, "reqs": _auto(3)}], [], c0=c0))
         cases.append(_mk([{"conn": 0, "reqs": _auto(2)}, {"conn": 3, "reqs": _auto(2)}], [[0, 2, 4], [1, BIG, 0]], c0=c0))
+    # --- connections derived from the root WHILE other threads use it (flag "late": every request goes through a wrapper
+    #     made just before it, inside the thread), and requests with bodies (flag "data": dict / str / bytes -> the code
+    #     after the id section adds Content-Type to the same headers dict)
+    for n in range(40 if not big else 400):
+        nth = rng.choice([2, 2, 3, 4])
+        c = _mk(_rand_threads(rng, nth, plain=rng.random() < 0.4), _rand_sched(rng, nth, rng.randrange(2, 30)),
+                c0=rng.choice([0, 0, 9999]))
+        if n % 4 != 3:
+            c["late"] = True
+        if n % 4 != 0:
+            c["data"] = True
+        cases.append(c)
+    for e in range(1, EVENTS_PER_REQ):
+        c = _mk(two, [[0, 0, e], [1, BIG, 0]])
+        c["late"] = True
+        c["data"] = True
+        cases.append(c)
     return cases
 
 
@@ -520,7 +539,7 @@ def kind(case):
         flav = "disabled"
     elif any(r for t in case["threads"] for r in t["reqs"]):
         flav = "mixed-shared-headers-object" if case.get("share") else "mixed"
-    return f"{nth}thr-{flav}"
+    return f"{nth}thr-{flav}" + ("-late-derived" if case.get("late") else "") + ("-bodies" if case.get("data") else "")
 
 
 def shrink_candidates(case):
@@ -569,41 +588,16 @@ def impl_run(case):
     from harness.props import c16_sched as S
     S.warm_up()
     nth = len(case["threads"])
-    # the real opener is never used (replaced below); building it loads the system certificates (40 ms)
-    import urllib.request as _ur
-    saved = _ur.build_opener
-    _ur.build_opener = lambda *a, **kw: None
-    try:
-        if case["en"]:
-            root = conn_http.HttpConn("http://host.example:8080/")
-        else:
-            root = conn_http.HttpConn(("http://host.example:8080", False))
-        b = conn_http.BAuthConn(root, "user", "pw")
-        conns = [root, b,
-                 conn_http.HttpConn(b, adapters=[conn_http.RequestAdapterAddPathPrefix("/v1/")]),
-                 conn_http.TokenAuthConn(conn_http.HttpConn(root), "tok", "t1")]
-    finally:
-        _ur.build_opener = saved
-    impl = root.conn_impl
-    shared = all(c.conn_impl is impl for c in conns)
-    impls = []
-    for c in conns:
-        if not any(c.conn_impl is x for x in impls):
-            impls.append(c.conn_impl)
-    if case["c0"]:
-        if not case["en"]:
-            raise ValueError("c0 with ids disabled")
-        for x in impls:
-            setattr(x, CTR, case["c0"])
-    cp = getattr(impl, CONN_PART, None)
-    sched = S.Sched(case["sched"], nth, conn_http.__file__, CTR, {conn_http._HttpConnImpl.do_request.__code__})
+    late = bool(case.get("late"))
     outs = [[] for _ in range(nth)]
     anomalies = []
     sentinel = []
     order = []
+    box = {}
 
     class Opener:
         def open(self, request, *a, **kw):
+            sched = box["sched"]
             vals = [v for k, v in request.header_items() if k.lower() == OBS_KEY.lower()]
             val = request.get_header(OBS_KEY)
             if len(vals) > 1 or (vals and vals[0] != val):
@@ -620,50 +614,96 @@ def impl_run(case):
                 order.append(me)
             return _Resp()
 
-    # (all derived connections use the root's implementation object; if they do not, every one is instrumented)
-    real_locks = []
-    for x in impls:
-        x.opener = Opener()
-        real_lock = getattr(x, GUARD, None)
-        real_locks.append(real_lock)
-        if real_lock is not None:
-            setattr(x, GUARD, S.LockProxy(real_lock, sched))
+    # no real opener is ever built (building one loads the system certificates: 40 ms): every implementation
+    # object created during the case -- also one a wrapper might create for itself -- gets the recording opener
+    import urllib.request as _ur
+    saved = _ur.build_opener
+    _ur.build_opener = lambda *a, **kw: Opener()
+    try:
+        if case["en"]:
+            root = conn_http.HttpConn("http://host.example:8080/")
+        else:
+            root = conn_http.HttpConn(("http://host.example:8080", False))
 
-    shared_hd = {}
+        def derive(kind):
+            # four ways to reach the root's implementation object: the root, a wrapper, a wrapper of a wrapper (x2)
+            if kind == 0:
+                return root
+            if kind == 1:
+                return conn_http.BAuthConn(root, "user", "pw")
+            if kind == 2:
+                return conn_http.HttpConn(conn_http.BAuthConn(root, "user", "pw"),
+                                          adapters=[conn_http.RequestAdapterAddPathPrefix("/v1/")])
+            return conn_http.TokenAuthConn(conn_http.HttpConn(root), "tok", "t1")
 
-    def mk(i):
-        spec = case["threads"][i]
-        conn = conns[spec["conn"]]
+        conns = [derive(k) for k in range(4)]
+        impl = root.conn_impl
+        shared = [all(c.conn_impl is impl for c in conns)]
+        impls = []
+        for c in conns:
+            if not any(c.conn_impl is x for x in impls):
+                impls.append(c.conn_impl)
+        if case["c0"]:
+            if not case["en"]:
+                raise ValueError("c0 with ids disabled")
+            for x in impls:
+                setattr(x, CTR, case["c0"])
+        cp = getattr(impl, CONN_PART, None)
+        sched = S.Sched(case["sched"], nth, conn_http.__file__, CTR, {conn_http._HttpConnImpl.do_request.__code__})
+        box["sched"] = sched
 
-        def body():
-            for j, h in enumerate(spec["reqs"]):
-                m = getattr(conn, METHODS[(i + j) % len(METHODS)])
-                hd = dict((k, v) for k, v in h) if h else None
-                if hd is not None and case.get("share"):
-                    # the caller keeps ONE headers dict per distinct content (a module-level "common
-                    # headers" object) and passes that same object to every request, from every thread
-                    hd = shared_hd.setdefault(json.dumps(h), hd)
-                m(f"/p/{i}/{j}", headers=hd, params={"q": j} if j % 2 else None)
-        return body
-
-    ok = sched.run([mk(i) for i in range(nth)])
-    errors = {str(i): SX.exc_name(e) for i, e in sched.errors.items()}
-    obs = {"ok": bool(ok), "untraced": bool(sched.untraced), "shared": bool(shared), "cp": cp,
-           "outs": outs, "errors": errors, "log": [[t, k] for t, k in sched.log], "anomalies": anomalies,
-           "steps": sched.steps, "order": order}
-    if ok:
-        # one more request from the main thread, without the scheduler: shows whether a number went missing
-        for x, real_lock in zip(impls, real_locks):
+        # (all derived connections use the root's implementation object; if they do not, every one is instrumented)
+        real_locks = []
+        for x in impls:
+            x.opener = Opener()
+            real_lock = getattr(x, GUARD, None)
+            real_locks.append(real_lock)
             if real_lock is not None:
-                setattr(x, GUARD, real_lock)
-        try:
-            conns[0].get("/sentinel")
-        except Exception as e:  # noqa
-            sentinel.append("!" + SX.exc_name(e))
-        obs["sentinel"] = sentinel
-        obs["ctr"] = getattr(impl, CTR, None)
-        if obs["ctr"] is not None and case["en"]:
-            obs["ctr"] -= 1   # the sentinel's own number
+                setattr(x, GUARD, S.LockProxy(real_lock, sched))
+
+        shared_hd = {}
+
+        def mk(i):
+            spec = case["threads"][i]
+
+            def body():
+                conn = conns[spec["conn"]]
+                for j, h in enumerate(spec["reqs"]):
+                    if late:
+                        # the connection is derived from the root while other threads are using it
+                        conn = derive(spec["conn"] if spec["conn"] else 1 + (i + j) % 3)
+                        if conn.conn_impl is not impl:
+                            shared[0] = False
+                    m = getattr(conn, METHODS[(i + j) % len(METHODS)])
+                    hd = dict((k, v) for k, v in h) if h else None
+                    if hd is not None and case.get("share"):
+                        # the caller keeps ONE headers dict per distinct content (a module-level "common
+                        # headers" object) and passes that same object to every request, from every thread
+                        hd = shared_hd.setdefault(json.dumps(h), hd)
+                    data = [None, {"j": j}, "text", b"bytes"][(i + 2 * j) % 4] if case.get("data") else None
+                    m(f"/p/{i}/{j}", headers=hd, params={"q": j} if j % 2 else None, data=data)
+            return body
+
+        ok = sched.run([mk(i) for i in range(nth)])
+        errors = {str(i): SX.exc_name(e) for i, e in sched.errors.items()}
+        obs = {"ok": bool(ok), "untraced": bool(sched.untraced), "shared": bool(shared[0]), "cp": cp,
+               "outs": outs, "errors": errors, "log": [[t, k] for t, k in sched.log], "anomalies": anomalies,
+               "steps": sched.steps, "order": order}
+        if ok:
+            # one more request from the main thread, without the scheduler: shows whether a number went missing
+            for x, real_lock in zip(impls, real_locks):
+                if real_lock is not None:
+                    setattr(x, GUARD, real_lock)
+            try:
+                conns[0].get("/sentinel")
+            except Exception as e:  # noqa
+                sentinel.append("!" + SX.exc_name(e))
+            obs["sentinel"] = sentinel
+            obs["ctr"] = getattr(impl, CTR, None)
+            if obs["ctr"] is not None and case["en"]:
+                obs["ctr"] -= 1   # the sentinel's own number
+    finally:
+        _ur.build_opener = saved
     if sched.untraced:
         raise RuntimeError("harness: a do_request frame got no opcode events (tracing not effective)")
     return obs
@@ -707,6 +747,8 @@ def _respelled_registered():
     """Other spellings of the header name: enforced ('sent unchanged') only once the finding is registered in
     KNOWN_FINDINGS.json (open -> KNOWN-FINDING, fixed -> must hold); see c16.notes.md."""
     global _known_cache
+    if os.environ.get("VERIF_C16_RESPELLED") == "1":     # to try the strict reading without touching KNOWN_FINDINGS.json
+        return True
     if _known_cache is None:
         try:
             here = os.path.dirname(os.path.dirname(os.path.dirname(os.path.abspath(__file__))))
@@ -726,8 +768,15 @@ def oracle(case, obs):
     if "__hang__" in obs:
         return [("hang", "the threads did not finish (scheduler timeout)")]
     if not obs.get("ok"):
-        return []     # scheduler could not drive the threads to their end: no verdict (shows up as a correspondence gap)
+        # the scheduler runs every thread that can run (a thread that fails to take the lock gives way to the others); it
+        # gives up when the only threads left are waiting for the lock, when a thread blocks outside its control (a lock
+        # that is not the connection's guard attribute) or after 200000 steps: the requests were not all sent
+        return [("threads-stuck", f"the threads could not be driven to their end (deadlock, or waiting on a lock other than the "
+                                  f"connection's guard); sent so far {obs.get('outs')!r}")]
     out = []
+    if not obs.get("shared", True):
+        out.append(("derived-connection-own-impl", "a connection derived from the root does not use the root's implementation "
+                                                   "object (lock/counter)"))
     for i, e in obs["errors"].items():
         out.append(("request-raises", f"thread {i}: request raised {e}"))
     for a in obs["anomalies"]:
